@@ -19,6 +19,8 @@ type TStep struct {
 	// AfterReply: issue this step AfterDelay ns after the first reply to request AfterReply was seen
 	AfterReply byte  `json:"ar,omitempty"`
 	AfterDelay int64 `json:"ad,omitempty"`
+	// Stall > 0: not a request: at At the whole process is not scheduled for this long (the clock moves on)
+	Stall int64 `json:"stall,omitempty"`
 }
 
 // Expect describes what must happen to one request.
@@ -98,6 +100,10 @@ func ExecTimed(tc *TimedCase) (*TimedRun, string) {
 			vrt.AdvanceTo(st.At)
 			if len(steps) <= 10 {
 				run.Mid = append(run.Mid, node.Snapshot())
+			}
+			if st.Stall > 0 {
+				vrt.Stall(st.Stall)
+				continue
 			}
 			issue(st)
 		}
